@@ -10,6 +10,10 @@
 #include <pika/config/export_definitions.hpp>
 #include <pika/config/version.hpp>
 #include <pika/preprocessor/stringize.hpp>
+#include <pika/config/verif_hooks.hpp>
+#if defined(PIKA_VERIF_HOOKS)
+namespace pika::verif { PIKA_EXPORT std::atomic<handler_t> handler{nullptr}; }
+#endif
 
 ///////////////////////////////////////////////////////////////////////////////
 namespace pika {
